@@ -310,10 +310,10 @@ func (rm *RegistrationManager) parseRegMessage(msg []byte) ([]*DecoyRegistration
 
 	// if either address is not provided (reg came over api / client ip
 	// logging disabled) fill with zeros to avoid nil dereference.
-	if parsed.GetRegistrationAddress() == nil {
+	if len(parsed.GetRegistrationAddress()) == 0 {
 		parsed.RegistrationAddress = make([]byte, 16)
 	}
-	if parsed.GetDecoyAddress() == nil {
+	if len(parsed.GetDecoyAddress()) == 0 {
 		parsed.DecoyAddress = make([]byte, 16)
 	}
 
@@ -481,6 +481,16 @@ func (rm *RegistrationManager) NewRegistrationC2SWrapper(c2sw *pb.C2SWrapper, in
         }
 
 	clientAddr := net.IP(c2sw.GetRegistrationAddress())
+
+	// Addresses come from other processes (registrar overrides, registration wrappers): anything
+	// that is not a 4- or 16-byte address would be tracked and announced to the detector as
+	// "<nil>" or "?0a0b..", which the detector rejects.
+	if l := len(reg.PhantomIp); l != net.IPv4len && l != net.IPv6len {
+		return nil, fmt.Errorf("invalid phantom address length %d", l)
+	}
+	if l := len(clientAddr); l != 0 && l != net.IPv4len && l != net.IPv6len {
+		return nil, fmt.Errorf("invalid registration address length %d", l)
+	}
 
 	if reg.PhantomIp.To4() != nil && clientAddr.To4() == nil {
 		// This can happen if the client chooses from a set that contains no
